@@ -252,6 +252,7 @@ def run(ctx):
     d7_backing_fresh(db, rep)
     d8_owned_fields_released(db, rep)
     d9_region_fields_set(db, rep)
+    __import__("importlib").import_module("rules.c08").d12_no_touch_after_chunk_release(db, rep, "D10-NO-TOUCH-AFTER-RELEASE")
 
     # ---- D3 ------------------------------------------------------------------
     cp = db.func("orc_compiler_compile_program", "orccompiler")
@@ -524,8 +525,10 @@ def d8_owned_fields_released(db, rep, rule="D8-CHUNK-RELEASED", destructor="orc_
         if not any(x.k == "MemberExpr" and x.name == fld for x in f.walk()):
             raise AnalysisBroken("%s does not mention `%s`" % (destructor, path))
         n += 1
-        wit = path_to(f, final[-1], lambda e: e.k == "CallExpr" and e.name in rel and e.args() and access_path(strip_casts(e.args()[0])) == path,
-                      lambda b, idx: not null_edge(b, idx, path))
+        wit = None
+        for fin in final:                   # EVERY release of the object itself (an early `free (code); return;` is one)
+            wit = wit or path_to(f, fin, lambda e: e.k == "CallExpr" and e.name in rel and e.args() and access_path(strip_casts(e.args()[0])) == path,
+                                 lambda b, idx: not null_edge(b, idx, path))
         rep.check(wit is None, rule, where(f), "%s:%s" % (destructor, fld),
                   "`%s` is released on every path on which it is not NULL" % path,
                   "%s can release the object without releasing `%s` although it is set (the release depends on more than the pointer being non-NULL): "
